@@ -86,6 +86,10 @@ CfgFor0(id, role, pp, fixed, late, mm, ow) ==
            THEN (IF (mm = "rs_i" /\ role = "i") \/ (mm = "rs_r" /\ role = "r") THEN Pub(sX)
                  ELSE IF (mm = "rs_i_bit" /\ role = "i") \/ (mm = "rs_r_bit" /\ role = "r")
                       THEN Alt(Pub(IF role = "i" THEN sR ELSE sI), "fliplast")
+                 \* P-256: the INVERSE point -P, another valid key with the same ECDH output as P: only the hash of the
+                 \* full encoding binds it
+                 ELSE IF (mm = "rs_i_neg" /\ role = "i") \/ (mm = "rs_r_neg" /\ role = "r")
+                      THEN Alt(Pub(IF role = "i" THEN sR ELSE sI), "negate")
                  ELSE Pub(IF role = "i" THEN sR ELSE sI))
            ELSE None,
     psk |-> [n \in 0..4 |-> IF n \in pp.psks /\ late # <<id, n>>
@@ -94,7 +98,9 @@ CfgFor0(id, role, pp, fixed, late, mm, ow) ==
                                       \/ ow = <<id, n, "fix">>
                                    THEN Atom("pskX", 32) ELSE PskAtom(n))
                              ELSE None],
-    prologue |-> IF mm = "prologue" /\ role = "r" THEN Atom("prologue2", 0) ELSE Prologue,
+    prologue |-> IF mm = "prologue" /\ role = "r" THEN Atom("prologue2", 0)
+                 ELSE IF mm = "prologue_z" /\ role = "r" THEN Atom("prologue3", 0)     \* the same bytes plus one trailing zero byte
+                 ELSE Prologue,
     fixed_e |-> IF fixed THEN (IF role = "i" THEN Atom("eI", 32) ELSE Atom("eR", 32)) ELSE None ]
 
 (* transport traffic: who sends the j-th transport message *)
@@ -127,8 +133,9 @@ Init ==
          /\ (mm = "psk" => ps # {})
          /\ (mm = "name" => ps # {} /\ pl = 32 /\ ip)     \* the two parties spell the SAME choice differently (psk3 / psk03)
          /\ (mm = "psk_max" => Cardinality(ps) >= 2)
-         /\ (mm \in {"rs_i", "rs_i_bit"} => NeedsRemoteStatic(p, "i"))
-         /\ (mm \in {"rs_r", "rs_r_bit"} => NeedsRemoteStatic(p, "r"))
+         /\ (mm \in {"rs_i", "rs_i_bit", "rs_i_neg"} => NeedsRemoteStatic(p, "i"))
+         /\ (mm \in {"rs_r", "rs_r_bit", "rs_r_neg"} => NeedsRemoteStatic(p, "r"))
+         /\ (mm \in {"rs_i_neg", "rs_r_neg"} => pl = 65)
          /\ prm = [pp |-> PPH(p, ps, pl, ip, Hfs), prof |-> prof, variant |-> v, fixed |-> fx, late |-> late, bufs |-> bm,
                    mm |-> mm, ow |-> ow, extra |-> ex, xrs |-> xr]
   /\ ep = [id \in {"I", "R"} |-> Absent]
